@@ -121,6 +121,21 @@ func backSlice(v ssa.Value) *slice {
 					}
 				}
 			}
+		case *ssa.Parameter:
+			// parameter of a helper the reference tree does not have: bound to its call sites' arguments
+			if h := y.Parent(); h != nil && gNewFuncs[h] {
+				idx := -1
+				for i, p := range h.Params {
+					if p == y {
+						idx = i
+					}
+				}
+				for _, site := range gCallSitesOf[h] {
+					if args := site.Common().Args; idx >= 0 && idx < len(args) {
+						rec(args[idx])
+					}
+				}
+			}
 		case *ssa.Alloc:
 			// a struct/array built in place: values stored into it (any field)
 			if refs := y.Referrers(); refs != nil {
